@@ -1731,7 +1731,6 @@ Section elems.
                try (injection ER as <- _ _; destruct loc; [exact I|cbn [MapElemsInv.inl_ok_e msize] in *; lia]).
              ++ destruct (is_group e1) eqn:G; [injection ER as <- _ _; destruct loc; [exact I|cbn [MapElemsInv.inl_ok_e msize] in *; lia]|].
                 injection ER as <- _ _. destruct e1; [exact I|discriminate].
-             ++ injection ER as <- _ _. exact I.
           -- injection ER as <- _ _. destruct loc; [exact I|cbn [MapElemsInv.inl_ok_e msize] in *; lia].
         * intros [= <- _ _]. cbn [MapElemsInv.inl_ok]. apply Forall_app. split; assumption.
       + rewrite remove_HKey_notfound by auto. discriminate.
@@ -1764,4 +1763,11 @@ Section elems.
     destruct (m_step s o) as [[s1 x] evs]. cbn [fst] in *. specialize (IH s1 W Hi').
     destruct (m_run s1 ops) as [s2 xs]. exact IH.
   Qed.
+
+  (* preservation of the invariant, by operation *)
+  Lemma ewf_set s k v : (1 <= levels)%nat -> mwf s -> mwf (fst (fst (m_step s (OSet k v)))).
+  Proof. intros Hlv Hs. apply (m_step_refines_all s (OSet k v) Hlv Hs). Qed.
+
+  Lemma ewf_remove s k : (1 <= levels)%nat -> mwf s -> mwf (fst (fst (m_step s (ORemove k)))).
+  Proof. intros Hlv Hs. apply (m_step_refines_all s (ORemove k) Hlv Hs). Qed.
 End elems.
